@@ -9,13 +9,14 @@ from .values import (CellRef, Ref, Seq, Unmergeable, Unsupported, is_sym, ite, v
 
 
 class State:
-    __slots__ = ("frames", "heap", "cells", "pc", "next_cell", "log", "effects")
+    __slots__ = ("frames", "heap", "cells", "pc", "next_cell", "log", "effects", "decisions")
 
     def __init__(self):
         self.frames = [{}]
         self.heap = {}      # (id(obj), attr) -> value
         self.cells = {}     # cid -> Seq
         self.pc = []        # list of z3 Bool terms (assumptions on this path)
+        self.decisions = set()   # ids of pc entries that are branch decisions (the rest are assumed facts)
         self.next_cell = [1000]   # shared counter (list so that forks share it)
         self.log = None     # optional write/read log used by the loop analyser
         self.effects = []   # ordered list of abstract effects (file writes, chdir, ...), used by frame contracts
@@ -30,6 +31,7 @@ class State:
         s.heap = dict(self.heap)
         s.cells = dict(self.cells)
         s.pc = list(self.pc)
+        s.decisions = set(self.decisions)
         s.next_cell = self.next_cell
         s.log = self.log
         s.effects = list(self.effects)
@@ -40,6 +42,12 @@ class State:
         if c is True:
             return
         self.pc.append(as_bool_term(c))
+
+    def decide(self, c):
+        """add a branch decision to the path condition"""
+        c = as_bool_term(c)
+        self.pc.append(c)
+        self.decisions.add(c.get_id())
 
     def guard(self, c):
         """context manager: evaluate under the temporary hypothesis c; assumptions made meanwhile stay, guarded"""
@@ -63,6 +71,7 @@ class _Guard:
     def __enter__(self):
         self.idx = len(self.st.pc)
         self.st.pc.append(self.c)
+        self.st.decisions.add(self.c.get_id())
         return self
 
     def __exit__(self, *exc):
@@ -75,7 +84,8 @@ class _Guard:
 
 
 def _guard(st: State, prefix_len: int):
-    return zand(*st.pc[prefix_len:])
+    """the branch decisions that distinguish this state from the fork point (assumed facts are not part of it)"""
+    return zand(*[p for p in st.pc[prefix_len:] if p.get_id() in st.decisions])
 
 
 def merge_states(states: list[State], prefix_len: int, extra_values: list | None = None, heap_initial=None):
@@ -88,9 +98,21 @@ def merge_states(states: list[State], prefix_len: int, extra_values: list | None
     base = states[-1]
     out = base.fork()
     out.pc = list(base.pc[:prefix_len])
+    out.decisions = {i for i in base.decisions if any(p.get_id() == i for p in out.pc)}
     disj = zor(*guards)
     if disj is not True:
         out.pc.append(as_bool_term(disj))
+    # facts assumed on a branch stay available, guarded by that branch's decisions (top-level implications)
+    seen_facts = set()
+    for s, g in zip(states, guards):
+        for p in s.pc[prefix_len:]:
+            if p.get_id() in s.decisions:
+                continue
+            f = p if g is True else z3.Implies(as_bool_term(g), p)
+            if f.get_id() in seen_facts:
+                continue
+            seen_facts.add(f.get_id())
+            out.pc.append(f)
 
     cell_pair_memo = {}
     used_as_self = set()
@@ -123,7 +145,7 @@ def merge_states(states: list[State], prefix_len: int, extra_values: list | None
                 used_in_pair.add(c)
             return ref
         if any(isinstance(v, CellRef) for v in vals):
-            raise Unmergeable("cell reference vs non-cell")
+            raise Unmergeable(f"cell reference vs non-cell: {vals!r}")
         if all(isinstance(v, Ref) for v in vals):
             raise Unmergeable(f"different object references: {vals}")
         if any(isinstance(v, (FuncVal, Opaque, Quantity)) for v in vals):
@@ -154,7 +176,10 @@ def merge_states(states: list[State], prefix_len: int, extra_values: list | None
         newf = {}
         for k in keys:
             vals = [s.frames[d].get(k, _MISSING) for s in states]
-            newf[k] = join(vals)
+            try:
+                newf[k] = join(vals)
+            except Unmergeable as e:
+                raise Unmergeable(f"variable {k}: {e}")
         out.frames[d] = newf
     # heap
     hkeys = []
@@ -172,7 +197,10 @@ def merge_states(states: list[State], prefix_len: int, extra_values: list | None
             if heap_initial is None:
                 raise Unmergeable(f"heap location {k} written on one branch only and no initial-value resolver")
             vals = [v if v is not _MISSING else heap_initial(s, k) for s, v in zip(states, vals)]
-        newh[k] = join(vals)
+        try:
+            newh[k] = join(vals)
+        except Unmergeable as e:
+            raise Unmergeable(f"heap {k[1]}: {e}")
     out.heap = newh
     # cells present in all states under the same id
     ckeys = set()
